@@ -3110,7 +3110,8 @@ class Wallet(object):
         for kb in key_balance_list:
             if kb['id'] in self._key_objects:
                 self._key_objects[kb['id']]._balance = kb['balance']
-        self.session.bulk_update_mappings(DbKey, key_balance_list)
+        self.session.bulk_update_mappings(DbKey, [{'id': kb['id'], 'balance': kb['balance']}
+                                                  for kb in key_balance_list])
         self._commit()
         # Bulk update bypasses the session: expire balances of key records already loaded in this session
         for db_obj in list(self.session.identity_map.values()):
@@ -3265,7 +3266,7 @@ class Wallet(object):
                                 block_height = utxo['block_height']
                             new_tx = DbTransaction(
                                 wallet_id=self.wallet_id, txid=bytes.fromhex(utxo['txid']), status=status,
-                                is_complete=False, block_height=block_height, account_id=account_id,
+                                is_complete=False, block_height=block_height, account_id=key.account_id,
                                 confirmations=utxo['confirmations'], network_name=network)
                             self.session.add(new_tx)
                             # TODO: Get unique id before inserting to increase performance for large utxo-sets
